@@ -51,6 +51,68 @@ def locked_def(c, z, res):
     return res == z3.Or(smt.typ(z) == cid(c, "LeafRelation"), smt.typ(z) == cid(c, "Materialization"))
 
 
+HeapSort = z3.ArraySort(smt.Ref, smt.Ref)
+# the relation's own engine can evaluate it without a Processor: every transfer / materialization below it (that is not
+# statically trivial) already carries its payload
+ready = z3.Function("ready", HeapSort, smt.Ref, smt.BoolS)
+
+
+def trivial_z(c, r):
+    mx = A(c, "BaseRelation", "max_rows")(r)
+    return z3.Or(A(c, "BaseRelation", "is_join_identity")(r), mx == smt.OptInt.oi_some(z3.IntVal(0)))
+
+
+def ready_axioms(ex):
+    class _C:
+        pass
+    c = _C()
+    c.ex = ex
+    H = z3.Const("H", HeapSort)
+    r = z3.Const("r", smt.Ref)
+    has = z3.Select(H, r) != smt.NONE
+    ut, mt = A(c, "UnaryOperationRelation", "target"), A(c, "MarkerRelation", "target")
+    bl, br = A(c, "BinaryOperationRelation", "lhs"), A(c, "BinaryOperationRelation", "rhs")
+    t = smt.typ(r)
+
+    def ax(cond, body):
+        return z3.ForAll([H, r], z3.Implies(cond, ready(H, r) == body), patterns=[ready(H, r)])
+
+    return [
+        ax(t == cid(c, "LeafRelation"), z3.BoolVal(True)),
+        ax(t == cid(c, "UnaryOperationRelation"), ready(H, ut(r))),
+        ax(t == cid(c, "BinaryOperationRelation"), z3.And(ready(H, bl(r)), ready(H, br(r)))),
+        ax(t == cid(c, "Transfer"), z3.Or(trivial_z(c, r), has)),
+        ax(t == cid(c, "Materialization"), z3.Or(trivial_z(c, r), has)),
+        ax(z3.And(is_marker(c, r), t != cid(c, "Transfer"), t != cid(c, "Materialization")), z3.Or(has, ready(H, mt(r)))),
+    ]
+
+
+extends = z3.Function("payload_heap_extends", HeapSort, HeapSort, smt.BoolS)  # H' keeps every payload H has
+wit_ext = z3.Function("wit_extends", HeapSort, HeapSort, smt.Ref)
+
+
+def extends_axioms(ex):
+    H, H2, H3 = z3.Const("H", HeapSort), z3.Const("H2", HeapSort), z3.Const("H3", HeapSort)
+    o, r = z3.Const("o", smt.Ref), z3.Const("r", smt.Ref)
+    w = wit_ext(H, H2)
+    return [
+        z3.ForAll([H, H2, o], z3.Implies(z3.And(extends(H, H2), z3.Select(H, o) != smt.NONE), z3.Select(H2, o) == z3.Select(H, o)),
+                  patterns=[z3.MultiPattern(extends(H, H2), z3.Select(H2, o))]),
+        z3.ForAll([H, H2], z3.Implies(z3.Not(extends(H, H2)), z3.And(z3.Select(H, w) != smt.NONE, z3.Select(H2, w) != z3.Select(H, w))), patterns=[extends(H, H2)]),
+        z3.ForAll([H], extends(H, H), patterns=[extends(H, H)]),
+        z3.ForAll([H, H2, H3], z3.Implies(z3.And(extends(H, H2), extends(H2, H3)), extends(H, H3)), patterns=[z3.MultiPattern(extends(H, H2), extends(H2, H3))]),
+        # spec lemma (induction on the tree): readiness is monotone in the payload heap
+        z3.ForAll([H, H2, r], z3.Implies(z3.And(extends(H, H2), ready(H, r)), ready(H2, r)), patterns=[z3.MultiPattern(extends(H, H2), ready(H, r))]),
+    ]
+
+
+def keeps_ready(c, result_z, *inputs):
+    """No unprocessed transfer / materialization is introduced: if the inputs are self-contained so is the result."""
+    H = z3.Const("g_H", HeapSort) if c.mode == "prove" else z3.Const(smt.fresh_name("qH"), HeapSort)
+    body = z3.Implies(z3.And(*[ready(H, i) for i in inputs]), ready(H, result_z))
+    return B(body) if c.mode == "prove" else B(z3.ForAll([H], body, patterns=[ready(H, result_z)]))
+
+
 def truthful_cols(c, z):
     return cols(c, z) == V.rcols(V.rows(z))
 
@@ -106,6 +168,8 @@ def register(reg):
 
     # definitions of the pure attributes (each property body is proved against exactly these facts above)
     reg.global_axioms.append(attr_axioms)
+    reg.global_axioms.append(ready_axioms)
+    reg.global_axioms.append(extends_axioms)
 
     # ------------------------------------------------------------------ tree invariants that mention engines (C14)
     reg.object_invariant("UnaryOperationRelation", "operation-supported-by-engine",
@@ -125,6 +189,7 @@ def register(reg):
     k.ens("result-stays-in-the-targets-engine", lambda c: B(z3.Implies(z3.Not(is_pj(c)), eng(c, c.result.z) == eng(c, c.target.z))))
     k.ens("result-columns-truthful", lambda c: B(truthful_cols(c, c.result.z)))
     k.ens("identity-returns-the-target-itself", lambda c: B(z3.Implies(smt.typ(c.self.z) == cid(c, "Identity"), c.result.z == c.target.z)))
+    k.ens("introduces-no-unprocessed-transfer", lambda c: B(z3.Implies(z3.Not(is_pj(c)), keeps_ready(c, c.result.z, c.target.z).z)))
     k.ens("a-join-lands-in-an-operand-engine",
           lambda c: B(z3.Implies(is_pj(c), z3.Or(eng(c, c.result.z) == eng(c, c.target.z), eng(c, c.result.z) == eng(c, A(c, "PartialJoin", "fixed")(c.self.z))))))
     k.raises("EngineError", lambda c: B(z3.Or(z3.Not(V.supp(c.self.z, eng(c, c.target.z))), is_pj(c))))
@@ -181,6 +246,8 @@ def register_apply(reg):
           lambda c: B(z3.Implies(z3.And(smt.typ(op2(c)) == cid(c, "Identity"), smt.typ(c.self.z) != cid(c, "Identity")), g2(c) == eng(c, c.target.z))))
     k.ens("preferred-engine-honoured",
           lambda c: B(z3.Implies(z3.And(smt.typ(op2(c)) != cid(c, "Identity"), c.preferred_engine.z != smt.NONE), g2(c) == c.preferred_engine.z)))
+    k.ens("without-a-preferred-engine-the-targets-engine-is-used",
+          lambda c: B(z3.Implies(z3.And(c.preferred_engine.z == smt.NONE, smt.typ(c.self.z) != cid(c, "PartialJoin")), g2(c) == eng(c, c.target.z))))
     k.ens("default-engine",
           lambda c: B(z3.Implies(z3.And(smt.typ(op2(c)) != cid(c, "Identity"), c.preferred_engine.z == smt.NONE),
                                  g2(c) == z3.If(smt.typ(c.self.z) == cid(c, "PartialJoin"), eng(c, A(c, "PartialJoin", "fixed")(c.self.z)), eng(c, c.target.z)))))
@@ -242,14 +309,14 @@ def register_engines(reg):
     SQL_UNVERIFIED = "implementations in lsst.daf.relation.sql are covered by the SQL contracts (C02/C17), not by this check"
 
     # -------------------------------------------------------------- MarkerRelation.reapply (C15: locked nodes are never rebuilt)
-    k = reg.contract("_marker_relation:MarkerRelation.reapply", properties=("C15", "C14", "C03"), self_classes=("MarkerRelation", "Transfer"), modifies=("BaseRelation.payload",))
+    k = reg.contract("_marker_relation:MarkerRelation.reapply", properties=("C15", "C14", "C03", "C07"), self_classes=("MarkerRelation", "Transfer"), modifies=("BaseRelation.payload",))
     _ph = lambda c, old=False: c.ex.heap_array(c.old if old else c.state, "BaseRelation.payload", smt.Ref)  # noqa: E731
     _o = z3.Const("o", smt.Ref)
     k.ens("new-marker-carries-the-given-payload-nothing-else-changes",
           lambda c: B(z3.And(z3.Implies(c.result.z != c.self.z, z3.Select(_ph(c), c.result.z) == c.payload.z),
                              z3.ForAll([_o], z3.Implies(_o != c.result.z, z3.Select(_ph(c), _o) == z3.Select(_ph(c, True), _o)), patterns=[z3.Select(_ph(c), _o)]),
                              z3.Implies(c.result.z == c.self.z, _ph(c) == _ph(c, True)),
-                             z3.Implies(c.result.z != c.self.z, smt.born(c.result.z) > 0))))
+                             z3.Implies(c.result.z != c.self.z, c.allocated_by_call(c.result.z)))))
     k.req("locked-nodes-are-never-rebuilt", lambda c: B(smt.typ(c.self.z) != cid(c, "Materialization")))
     k.req("not-a-select-marker", lambda c: B(smt.typ(c.self.z) != cid(c, "Select")))
     k.req("a-carried-payload-holds-the-new-targets-rows", lambda c: B(z3.Or(c.payload.z == smt.NONE, V.content(c.payload.z) == V.rows(c.target.z))))
@@ -258,6 +325,9 @@ def register_engines(reg):
           lambda c: B(z3.Implies(z3.And(c.target.z == A(c, "MarkerRelation", "target")(c.self.z), c.payload.z == c.attr(c.self, "payload", old=True).z), c.result.z == c.self.z)))
     k.ens("the-marker-itself-only-for-unchanged-arguments",
           lambda c: B(z3.Implies(c.result.z == c.self.z, z3.And(c.target.z == A(c, "MarkerRelation", "target")(c.self.z), c.payload.z == c.attr(c.self, "payload", old=True).z))))
+    k.ens("keeps-every-existing-payload", lambda c: B(z3.Implies(z3.Select(_ph(c, True), c.result.z) == smt.NONE, extends(_ph(c, True), _ph(c)))))
+    k.ens("ready-when-a-payload-is-given-or-a-plain-marker-over-a-ready-target",
+          lambda c: B(z3.Implies(z3.Or(c.payload.z != smt.NONE, z3.And(smt.typ(c.self.z) != cid(c, "Transfer"), ready(_ph(c), c.target.z))), ready(_ph(c), c.result.z))))
     k.ens("same-kind-of-marker-over-the-new-target",
           lambda c: B(z3.And(smt.typ(c.result.z) == smt.typ(c.self.z), A(c, "MarkerRelation", "target")(c.result.z) == c.target.z,
                              z3.Implies(smt.typ(c.self.z) == cid(c, "Transfer"), A(c, "Transfer", "destination")(c.result.z) == A(c, "Transfer", "destination")(c.self.z)))))
@@ -273,6 +343,10 @@ def register_engines(reg):
     k.ens("only-for-leaves-and-materializations-behind-same-engine-markers",
           lambda c: B(z3.Implies(c.result.z, z3.Or(mat_or_leaf(c, c.target.z), is_marker(c, c.target.z)))))
 
+    k.ens("markers-are-looked-through-only-within-one-engine",
+          lambda c: B(z3.Implies(z3.And(c.result.z, is_marker(c, c.target.z), smt.typ(c.target.z) != cid(c, "Materialization")),
+                                 eng(c, c.target.z) == eng(c, A(c, "MarkerRelation", "target")(c.target.z)))))
+
     # -------------------------------------------------------------- Engine methods (virtual)
     k = reg.contract("_engine:Engine.conform", virtual=True, unverified_impls=("sql.",), properties=("C17", "C14"), note=SQL_UNVERIFIED)
     k.ens("same-rows-engine-columns", lambda c: B(z3.And(V.rows(c.result.z) == V.rows(c.relation.z), eng(c, c.result.z) == eng(c, c.relation.z),
@@ -285,6 +359,7 @@ def register_engines(reg):
     k.ens("stays-in-the-targets-engine", lambda c: B(z3.Implies(smt.typ(c.operation.z) != cid(c, "PartialJoin"), eng(c, c.result.z) == eng(c, c.target.z))))
     k.ens("result-columns-truthful", lambda c: B(truthful_cols(c, c.result.z)))
     k.ens("identity-returns-the-target-itself", lambda c: B(z3.Implies(smt.typ(c.operation.z) == cid(c, "Identity"), c.result.z == c.target.z)))
+    k.ens("introduces-no-unprocessed-transfer", lambda c: B(z3.Implies(smt.typ(c.operation.z) != cid(c, "PartialJoin"), keeps_ready(c, c.result.z, c.target.z).z)))
     k.ens("a-join-lands-in-an-operand-engine",
           lambda c: B(z3.Implies(smt.typ(c.operation.z) == cid(c, "PartialJoin"),
                                  z3.Or(eng(c, c.result.z) == eng(c, c.target.z), eng(c, c.result.z) == eng(c, A(c, "PartialJoin", "fixed")(c.operation.z))))))
@@ -308,8 +383,13 @@ def register_engines(reg):
     k.ens("same-rows-same-engine", lambda c: B(z3.And(V.rows(c.result.z) == V.rows(c.target.z), eng(c, c.result.z) == eng(c, c.target.z))))
     k.ens("otherwise-a-new-empty-materialization-of-the-target",
           lambda c: B(z3.Or(c.result.z == c.target.z,
-                            z3.And(smt.typ(c.result.z) == cid(c, "Materialization"), smt.born(c.result.z) > 0,
+                            z3.And(smt.typ(c.result.z) == cid(c, "Materialization"), c.allocated_by_call(c.result.z),
                                    c.ex.types.attr_symbol(c.ex.repo.cls("MarkerRelation"), "target", TRefT(c.ex.repo.cls("BaseRelation")))(c.result.z) == c.target.z))))
+    k.ens("the-target-itself-only-when-there-is-nothing-to-materialize",
+          lambda c: B(z3.Implies(c.result.z == c.target.z,
+                                 z3.And(c.ex.pure_symbol("_materialization:Materialization.simplify", [smt.Ref], smt.BoolS)(c.target.z),
+                                        z3.Or(smt.typ(c.target.z) == cid(c, "Materialization"), smt.typ(c.target.z) == cid(c, "LeafRelation"),
+                                              z3.And(is_marker(c, c.target.z), eng(c, c.target.z) == eng(c, A(c, "MarkerRelation", "target")(c.target.z))))))))
     k.ens("leaves-and-materializations-are-not-materialized-again",
           lambda c: B(z3.Implies(c.ex.pure_symbol("_materialization:Materialization.simplify", [smt.Ref], smt.BoolS)(c.target.z), c.result.z == c.target.z)))
     k.raises("RelationalAlgebraError", None)
@@ -371,6 +451,8 @@ def register_engines(reg):
 
     k.ens("documented-no-op-returns-the-relation-itself",
           lambda c: B(z3.Implies(z3.And(smt.typ(begin_op(c)) == cid(c, "Identity"), smt.typ(c.self.z) != cid(c, "Identity")), c.result.z == c.target.z)))
+    k.ens("at-the-root-no-unprocessed-transfer-is-introduced",
+          lambda c: B(z3.Implies(z3.And(c.preferred_engine.z == smt.NONE, smt.typ(c.self.z) != cid(c, "PartialJoin")), keeps_ready(c, c.result.z, c.target.z).z)))
     k.ens("a-join-lands-in-an-operand-engine",
           lambda c: B(z3.Implies(z3.And(z3.Not(c.transfer.z), smt.typ(c.self.z) == cid(c, "PartialJoin")),
                                  z3.Or(eng(c, c.result.z) == eng(c, c.target.z), eng(c, c.result.z) == eng(c, A(c, "PartialJoin", "fixed")(c.self.z))))))
